@@ -11,6 +11,9 @@
 Observations: cb <oid> <method> e<entity>|_|<argtoken>|<dt> ; res ok|raised <Name> ; ret <value>;
 snapshot lines (get/row/exists/has/entities/procs/gp/pw/ish/ctl/enabled).
 """
+import gc
+import weakref
+
 import desper
 from desper.events import event_handler
 from harness.models.disp import Scripted, exc_name, dec_args, enc_args, split_list
@@ -62,6 +65,8 @@ class Run:
         self.decls = []
         self.objdecl = []
         self.raises = {}
+        self.reacts = {}
+        self.gone = {}          # forgotten objects: oid -> weak reference
         self.ops = []
         self.ents = []
         self.calls = {}
@@ -86,6 +91,10 @@ class Run:
                 self.objdecl.append((int(t[1]), int(d['class'])))
             elif t[0] == 'raise':
                 self.raises[(int(t[1]), t[2], int(t[3]))] = t[4]
+            elif t[0] == 'react':
+                # react <obj> <method> <k> delete <entity>: the k-th invocation calls world.delete_entity
+                assert t[4] == 'delete'
+                self.reacts[(int(t[1]), t[2], int(t[3]))] = int(t[5])
             elif t[0] == 'ents':
                 self.ents = [int(x) for x in split_list(t[1])]
             elif t[0] == 'op':
@@ -175,6 +184,10 @@ class Run:
         self.obs.append(f'cb {oid} {mname} {a}')
         k = self.calls.get((oid, mname), 0)
         self.calls[(oid, mname)] = k + 1
+        x = self.reacts.get((oid, mname, k))
+        if x is not None:
+            self.deferred.append(x)
+            self.w.delete_entity(ent_py(x))
         exc = self.raises.get((oid, mname, k))
         if exc:
             raise Scripted(exc)
@@ -227,6 +240,11 @@ class Run:
             w.dispatch(t[1], *args, **kwargs)
         elif k == 'via':
             return self.via(self.objs[int(t[1])], t[2], t[3:])
+        elif k == 'forget':
+            # the program drops its own reference to the object
+            o = int(t[1])
+            if o in self.objs:
+                self.gone[o] = weakref.ref(self.objs.pop(o))
         else:
             raise ValueError(t)
         return '-'
@@ -328,14 +346,28 @@ class Run:
             out.append(f'gp {t} ' + q(lambda: gp_line(t)))
         out.append('pw ' + (','.join(str(o) for o in sorted(
             oid for oid, ob in self.objs.items() if desper.Processor in type(ob).__mro__ and ob.world is w)) or '-'))
-        for oid, ob in self.objs.items():
-            if hasattr(ob, '__events__'):
-                out.append(f'ish {oid} ' + q(lambda: str(int(w.is_handler(ob)))))
-        for oid, ob in self.objs.items():
-            if desper.Controller in type(ob).__mro__:
-                ok = ob.world is w or ob.world is None
-                out.append(f'ctl {oid} {"None" if ob.entity is None else ent_code(ob.entity)}'
-                           + ('' if ok else ' wrong-world'))
+        if self.gone:
+            gc.collect()
+
+        def deref(oid):
+            return self.objs[oid] if oid in self.objs else self.gone[oid]()
+        for oid, cid in self.objdecl:
+            if hasattr(self.classes[cid], '__events__'):
+                ob = deref(oid)
+                out.append(f'ish {oid} ' + ('0' if ob is None else q(lambda: str(int(w.is_handler(ob))))))
+                ob = None
+        for oid, cid in self.objdecl:
+            if desper.Controller in self.classes[cid].__mro__:
+                ob = deref(oid)
+                if ob is None:
+                    out.append(f'ctl {oid} collected')
+                else:
+                    ok = ob.world is w or ob.world is None
+                    out.append(f'ctl {oid} {"None" if ob.entity is None else ent_code(ob.entity)}'
+                               + ('' if ok else ' wrong-world'))
+                ob = None
+        for oid in sorted(self.gone):
+            out.append(f'alive {oid} {int(self.gone[oid]() is not None)}')
         out.append(f'enabled {int(w.dispatch_enabled)}')
         return out
 
